@@ -376,8 +376,15 @@ impl Prop for C18 {
                     let (s, o) = (who(*spender), who(*owner));
                     let cur = m.allow.get(&(o.clone(), s.clone())).cloned();
                     let live = cur.map(|c| if c.1.is_expired(&blk) { 0 } else { c.0 }).unwrap_or(0);
+                    let stored = cur.map(|c| c.0).unwrap_or(0);
                     let ob = m.bal.get(&o).copied().unwrap_or(0);
-                    let a = amount_for(live.min(ob).max(if *k >= 5 { live.max(ob) } else { 0 }), *k);
+                    // amounts around the spendable part; for an expired allowance around what is still stored
+                    // (exactly the stored remainder is the interesting request)
+                    let base = if live == 0 && stored > 0 { stored.min(ob.max(1)) } else { live.min(ob) };
+                    let a = amount_for(base.max(if *k >= 5 { live.max(ob) } else { 0 }), *k);
+                    if live == 0 && stored > 0 && a == stored {
+                        out.label("expired_allowance_spent_exactly");
+                    }
                     let must = cur.is_none() || a > live || a > ob;
                     let (target, is_burn): (Option<String>, bool) = match op {
                         TokOp::TransferFrom { to, .. } => (Some(who(*to)), false),
